@@ -357,6 +357,10 @@ fn apply_post(bytes: Vec<u8>, post: &[(String, String)]) -> Vec<u8> {
     text.into_bytes()
 }
 
+pub fn mutate_bytes_pub(rng: &mut Rng, bytes: &[u8]) -> Vec<u8> {
+    mutate_bytes(rng, bytes)
+}
+
 /// byte level mutations for the differential oracle
 fn mutate_bytes(rng: &mut Rng, bytes: &[u8]) -> Vec<u8> {
     let mut b = bytes.to_vec();
